@@ -12,7 +12,7 @@ import (
 
 func init() { Registry["C08"] = runC08 }
 
-const explanationC08 = "Decides structural necessary conditions of C08: (R08.1) projection draws attribute names from the view — projectSingle sets projected attributes only for names ranged from the view object, starts from a copy of the view's type and keeps only required names the view contains; (R08.2) an unknown view is refused — projectSingle returns an error when the view lookup is nil before it dereferences it, and the generated viewed-type validation switches over the defined views (\"\" joined to default) with a default arm that assigns an error; (R08.3) the view name crosses the wire under one header constant on both sides (HTTP and gRPC), and only when the design does not fix the view; (R08.5) the projection memo in projectRecursive is keyed by the view that is actually used to project the nested type; (R08.6) no stale per-iteration state in the view code generators and projections (view overrides, search flags); (R08.7) a view override declared on a view attribute — including an explicit \"default\" — is copied to the projected attribute whenever present, under the ViewMetaKey constant; (R08.8) the view attribute handed to the recursive projection is the view definition's own; (R08.9) every reader of the view Meta key selects the last value; (R08.10) the projection memo key is the full structural hash plus the view name. NOT decided: wire content for any value and recursion correctness of Project on all type graphs (needs execution)."
+const explanationC08 = "Decides structural necessary conditions of C08: (R08.1) projection draws attribute names from the view — projectSingle sets projected attributes only for names ranged from the view object, starts from a copy of the view's type and keeps only required names the view contains; (R08.2) an unknown view is refused — projectSingle returns an error when the view lookup is nil before it dereferences it, and the generated viewed-type validation switches over the defined views (\"\" joined to default) with a default arm that assigns an error; (R08.3) the view name crosses the wire under one header constant on both sides (HTTP and gRPC), and only when the design does not fix the view; (R08.5) the projection memo in projectRecursive is keyed by the view that is actually used to project the nested type; (R08.6) no stale per-iteration state in the view code generators and projections (view overrides, search flags); (R08.7) a view override declared on a view attribute — including an explicit \"default\" — is copied to the projected attribute whenever present, under the ViewMetaKey constant; (R08.8) the view attribute handed to the recursive projection is the view definition's own; (R08.9) every reader of the view Meta key selects the last value; (R08.10) the projection memo key is the full structural hash plus the view name. (R08.11) a nested result type is projected with the view attribute's view, else the type attribute's, else the \"default\" constant, on every path (path table of projectRecursive). NOT decided: wire content for any value and recursion correctness of Project on all type graphs (needs execution)."
 
 func runC08(c *an.Ctx) string {
 	r081Projection(c)
@@ -24,6 +24,7 @@ func runC08(c *an.Ctx) string {
 	r088ViewAttribute(c)
 	metaSelectionAgreement(c, "R08.9", "view")
 	r0810MemoKey(c)
+	r0811NestedView(c, "R08.11")
 	return explanationC08
 }
 
@@ -544,4 +545,81 @@ func r0810MemoKey(c *an.Ctx) {
 		ok, why = false, "the view name is not part of the memo key"
 	}
 	c.Check(ok, rule, f.Name+"#key", f.Decl.Pos(), "the projection memo key is the full structural hash plus the view name", why)
+}
+
+// r0811NestedView (R08.11): the view a nested result type is projected with is decided in three steps: the view the
+// enclosing view's attribute names (View("…") on the view attribute), else the view named on the type's own
+// attribute, else "default". On every path of projectRecursive that calls project, the view argument is the first
+// of the three whose lookup succeeded on that path - in particular a path on which neither lookup succeeded (or was
+// tested) projects with the "default" constant, never with an empty or inherited name.
+func r0811NestedView(c *an.Ctx, rule string) {
+	f := c.MustFunc(rule, "expr", "projectRecursive")
+	if f == nil {
+		return
+	}
+	fn := c.SSAFunc(f)
+	if fn == nil {
+		c.Undecidedf(rule, f.Name, f.Decl.Pos(), "no SSA function")
+		return
+	}
+	t := an.BuildPathTable(fn, an.PathOpts{MaxPaths: 4000})
+	c.Stats["paths_enumerated"] += len(t.Paths)
+	c.Stats["functions_tabled"]++
+	vatRe := regexp.MustCompile(`^\(expr\.MetaExpr\)\.Last\(p1\.Attribute\.Meta, "view"\)#1$`)
+	atRe := regexp.MustCompile(`^\(expr\.MetaExpr\)\.Last\((p0|expr\.DupAtt\(p0\))\.Meta, "view"\)#1$`)
+	rows := 0
+	for _, p := range t.Paths {
+		view := ""
+		for _, e := range p.CallEffects() {
+			if strings.HasPrefix(e, "expr.project(") {
+				if a := topArgs(e); len(a) == 3 {
+					view = a[1]
+				}
+			}
+		}
+		if view == "" {
+			continue
+		}
+		var vatOK, atOK *bool
+		infeasible := false
+		for _, a := range p.Atoms {
+			v := a.Val
+			switch {
+			case a.Term == "p0.Type.(*expr.ResultTypeExpr)?#1" && !a.Val:
+				// the copy made by DupAtt has the dynamic type of the original (R13 decides the copiers): a path on
+				// which the original is no result type and its copy is one does not exist
+				infeasible = true
+			case vatRe.MatchString(a.Term):
+				vatOK = &v
+			case atRe.MatchString(a.Term):
+				atOK = &v
+			}
+		}
+		if infeasible {
+			continue
+		}
+		rows++
+		want := ""
+		switch {
+		case vatOK != nil && *vatOK:
+			want = `(expr.MetaExpr).Last(p1.Attribute.Meta, "view")#0`
+		case vatOK != nil && !*vatOK && atOK != nil && *atOK:
+			want = `(expr.MetaExpr).Last(p0.Meta, "view")#0`
+		case vatOK != nil && !*vatOK && atOK != nil && !*atOK:
+			want = `"default"`
+		default:
+			c.Failf(rule, f.Name+"#nested-view", p.Pos, "on the path [%s] the nested type is projected with view %s although the path has not established which of the three sources applies (view attribute, type attribute, default): a lookup result is used without its ok flag", p.GuardString(), view)
+			return
+		}
+		got := strings.Replace(view, "expr.DupAtt(p0).Meta", "p0.Meta", 1)
+		if got != want {
+			c.Failf(rule, f.Name+"#nested-view", p.Pos, "on the path [%s] the nested type is projected with view %s, the reference is %s (view attribute's view, else the type attribute's, else \"default\")", p.GuardString(), view, want)
+			return
+		}
+	}
+	if rows == 0 {
+		c.Undecidedf(rule, f.Name, f.Decl.Pos(), "no path of projectRecursive calls project")
+		return
+	}
+	c.Okf(rule, f.Name+"#nested-view", "%d paths project a nested result type: each with the view attribute's view, else the type attribute's view, else \"default\"", rows)
 }
